@@ -1,10 +1,11 @@
 """C16 — context-free transaction and block checks (CheckTransaction, CheckBlockHeader, CheckBlock)."""
 import copy
+import random
 import struct
 
 from ..framework import Prop, mk, guarded, ensure_repo_on_path
 from .. import txfmt
-from .c15 import (ZERO32, dsha, ser_tx, ser_header, ser_varint, txid, wtxid, ref_root, ref_witness_root,
+from .c15 import (build_block, run_seq, ZERO32, dsha, ser_tx, ser_header, ser_varint, txid, wtxid, ref_root, ref_witness_root,
                   has_witness, rnd_bytes)
 
 CHAINS = ('mainnet', 'testnet', 'signet', 'regtest')
@@ -222,6 +223,31 @@ def tx_edits(rng, pool):
                 t['wit'].insert(where if where >= 0 else len(t['wit']), [])
         return f
 
+    def dup_input_big_n(nv):
+        # equal-but-not-identical keys: the index is an int object of its own at each occurrence (>= 257,
+        # so not CPython's shared small ints), the hash a bytes object of its own
+        def f(t):
+            h, n, s, q = t['vin'][0]
+            t['vin'][0] = (h, nv, s, q)
+            t['vin'].append((bytes(bytearray(h)), int(str(nv)), b'', q))
+            if t.get('wit'):
+                t['wit'].append([])
+        return f
+
+    def dup_input_far(t):
+        # the duplicate 300 inputs apart
+        h, n, s, q = t['vin'][0]
+        t['vin'] += [(rnd_bytes(rng, 32), 1000 + k, b'', 0) for k in range(300)]
+        t['vin'].append((h, n, b'', 1))
+        if t.get('wit'):
+            t['wit'] = None
+
+    def many_inputs_no_dup(t):
+        h, n, s, q = t['vin'][0]
+        t['vin'] += [(h, 1000 + k, b'', 0) for k in range(300)]      # same hash, 300 different indices
+        if t.get('wit'):
+            t['wit'] = None
+
     eds = [('vin-empty', vin_empty), ('vout-empty', vout_empty),
            ('value--1', val(-1)), ('value-0+', val(0)), ('value-max+', val(MAX_MONEY)),
            ('value-max+1', val(MAX_MONEY + 1)), ('value-int64max', val(2 ** 63 - 1)), ('value-int64min', val(-2 ** 63)),
@@ -230,6 +256,9 @@ def tx_edits(rng, pool):
            ('sum-over-then-nothing', total(MAX_MONEY, 1)),
            ('dup-input', dup_input(True)), ('dup-input-other-n+', dup_input(False)),
            ('dup-input-first-last', dup_input_first_last),
+           ('dup-input-n-257', dup_input_big_n(257)), ('dup-input-n-100000', dup_input_big_n(100000)),
+           ('dup-input-n-max-1', dup_input_big_n(0xfffffffe)), ('dup-input-300-apart', dup_input_far),
+           ('300-inputs-one-hash+', many_inputs_no_dup),
            ('null-prevout-last', null_input(-1)), ('null-prevout-first', null_input(0)),
            ('zero-hash-n0+', null_input(-1, ZERO32, 0)), ('ffhash-nmax+', null_input(-1, b'\xff' * 32, 0xffffffff)),
            ('zero-hash-nmax-1+', null_input(-1, ZERO32, 0xfffffffe))]
@@ -246,7 +275,7 @@ def sig_filler(total):
     return b'\xae' * a + b'\xac' * b
 
 
-def block_edits(rng, base, pool):
+def block_edits(rng, base, pool, heavy=True):
     """yield (name, B) — every single-rule edit of `base` (a valid block), boundaries on both sides"""
     nt = len(base.vtx)
     targets = [0] + ([rng.randrange(1, nt)] if nt > 1 else [])
@@ -292,6 +321,17 @@ def block_edits(rng, base, pool):
         if not (b.vtx[0].get('wit') and b.vtx[0]['wit'][0]):
             b.vtx[0]['wit'] = [[rnd_bytes(rng, 32)]]
         yield 'dup-txid-other-witness', b.recommit().seal()
+
+    # -- a duplicate more than 256 positions away, and 300 distinct transactions
+    if nt > 1 and heavy:
+        for dup in (True, False):
+            b = base.clone()
+            k = rng.randrange(1, nt)
+            b.vtx += [dict(ver=1, lock=0, vin=[(rnd_bytes(rng, 32), 0, b'', 0)], vout=[(1, b'')], wit=None)
+                      for _ in range(300)]
+            if dup:
+                b.vtx.append(copy.deepcopy(b.vtx[k]))
+            yield ('dup-tx-300-apart' if dup else '300-more-txs+'), b.recommit().seal()
 
     # -- legacy sigops: exactly 20000 and 20001, placed in different scripts
     s0 = sum(tx_sigops(t) for t in base.vtx)
@@ -604,7 +644,13 @@ class C16(Prop):
             'ground in the harness) and, per block, every single-rule edit of the catalogue with each boundary on '
             'both sides, applied to the coinbase and to another transaction; each case is judged by the model and, '
             'independently, by Spec.ValidBlock; the same for stand-alone transactions and headers; under each '
-            'chain (proof of work checked on regtest, switched off or failing elsewhere); non-trivial = every case; '
+            'chain (proof of work checked on regtest, switched off or failing elsewhere); sequences on the SAME objects in one '
+            'process (op c16.seq, each begun with a fixed flushing step, answered statelessly by the model): every ordered '
+            'pair of the 22 block observers / checks (x, y, x) on valid and on part-way-failing blocks, every ordered pair of '
+            'the transaction observers on both classes, a check right after a check that succeeded / raised part-way / ran '
+            'under another chain or other flags on another block sharing a transaction, on an equal rebuilt object and on the '
+            'same object, random histories; duplicates 257+ positions apart and with equal-but-not-identical keys; '
+            'non-trivial = every case; '
             'distinct by canonical request line')
 
     def setup(self):
@@ -624,6 +670,7 @@ class C16(Prop):
             g += 1
             return g % nshards == shard
 
+        yield from self.gen_sequences(tier, shard, nshards)
         # (a) blocks and their edits
         shapes = [(1, 'none'), (1, 'cbonly'), (2, 'none'), (2, 'some'), (2, 'nocommit'), (3, 'all'), (3, 'some'),
                   (4, 'cbonly'), (5, 'some'), (5, 'none'), (8, 'all'), (9, 'some'), (2, 'all'), (3, 'nocommit'),
@@ -636,7 +683,7 @@ class C16(Prop):
                 chain = CHAINS[(k + r) % 4] if (k + r) % 3 == 0 else 'regtest'
                 base = valid_block(rng, ntx, wm)
                 yield from self.block_cases(chain, 'valid+ ntx=%d %s' % (ntx, wm), base)
-                for name, b in block_edits(rng, base, self.pool):
+                for name, b in block_edits(rng, base, self.pool, heavy=(r % 8 == 0)):
                     yield from self.block_cases(chain, '%s ntx=%d %s' % (name, ntx, wm), b)
         # (b) the few large blocks and transactions
         if mine():
@@ -738,6 +785,108 @@ class C16(Prop):
                 yield mk('c16.sigops', s.hex(), tag='sigops long')
                 yield mk('c16.spec.sigops', s.hex(), tag='spec sigops long')
 
+    # ---- observer pairs on ONE block / transaction object and call-after-call histories (op c16.seq);
+    #      structure and content from a shard-independent generator, cases partitioned by index
+    def gen_sequences(self, tier, shard, nshards):
+        big = tier == 'thorough'
+        crng = random.Random('%s:%s:%s:seq' % (getattr(self, 'seed', 0), self.id, tier))
+        i = 0
+
+        def spec(b):
+            return 'B=' + b.text()
+
+        def cb(k, b, chain='regtest', fpow=1, fmerkle=1):
+            return 'cb:%d:%s:%d:%d:%d' % (k, chain, b.now, fpow, fmerkle)
+        ok_w = valid_block(crng, 3, 'some')
+        ok_n = valid_block(crng, 2, 'nocommit')
+        kinds = {'ok-witness': ok_w, 'ok-plain': ok_n}
+        b = ok_w.clone(); h, k, _, q = b.vtx[0]['vin'][0]; b.vtx[0]['vin'][0] = (h, k, b'\x07' * 101, q)
+        kinds['bad-coinbase'] = b.recommit().seal()                        # raises in the first loop iteration
+        b = ok_w.clone(); b.vtx.append(copy.deepcopy(b.vtx[-1]))
+        kinds['dup-tx'] = b.recommit().seal()                              # raises after the txid set is part-filled
+        b = ok_w.clone(); s0 = sum(tx_sigops(t) for t in b.vtx); b.vtx[-1]['vout'].append((0, sig_filler(20001 - s0)))
+        kinds['sigops-20001'] = b.recommit().seal()                        # raises with the counter at 20001
+        b = ok_w.clone(); b.hdr['merkle'] = dsha(b'x')
+        kinds['wrong-root'] = b.seal(merkle=False)                         # raises after the whole loop
+        b = ok_w.clone(); v, sc = b.vtx[0]['vout'][b.ci]; b.vtx[0]['vout'][b.ci] = (v, sc[:10] + bytes([sc[10] ^ 1]) + sc[11:])
+        kinds['commit-mismatch'] = b.seal()
+        kinds['pow-fails'] = ok_w.clone().seal(fail_pow=True)
+        last = {k: len(v.vtx) - 1 for k, v in kinds.items()}
+
+        # (P1) every ordered pair of observers on one block object (x, y, x again)
+        for kind in ('ok-witness', 'dup-tx', 'wrong-root', 'ok-plain'):
+            b = kinds[kind]
+            L = last[kind]
+            obs = ['mr:0', 'wr:0', 'gw:0', 's0:0', 's1:0', 'bh:0', 'ci:0', 'ctor:0', cb(0, b), cb(0, b, 'regtest', 0, 0),
+                   cb(0, b, 'mainnet', 1, 1), cb(0, b, 'signet', 0, 1), 'ch:0:regtest:%d:1' % b.now, 'ch:0:testnet:%d:1' % b.now,
+                   'tid:0:%d' % L, 'wid:0:%d' % L, 'tw:0:%d' % L, 'tc:0:%d:regtest' % L, 'tc:0:0:mainnet', 'so:0:%d' % L,
+                   'tcb:0:0', 'thw:0:%d' % L]
+            for x in obs:
+                for y in obs:
+                    i += 1
+                    if i % nshards == shard:
+                        yield mk('c16.seq', 1, spec(b), 'flush', x, y, x, tag='seq block-pair %s %s>%s' % (kind, x.split(':')[0], y.split(':')[0]))
+        # stand-alone transactions, both classes
+        t_ok = normal_tx(crng, 'some', nin=2, nout=2)
+        t_dup = copy.deepcopy(t_ok); t_dup['vin'].append(t_dup['vin'][0]); t_dup['wit'] = None
+        t_cb = valid_block(crng, 1, 'cbonly').vtx[0]
+        for cls in ('Ti=', 'Tm='):
+            for name, t in (('ok', t_ok), ('dup', t_dup), ('cb', t_cb)):
+                obs = ['tid:0:-', 'wid:0:-', 'tw:0:-', 'ts0:0:-', 'th:0:-', 'tc:0:-:mainnet', 'tc:0:-:regtest', 'so:0:-', 'tcb:0:-']
+                for x in obs:
+                    for y in obs:
+                        i += 1
+                        if i % nshards == shard:
+                            yield mk('c16.seq', 1, cls + txfmt.show_tx(t), 'flush', x, y, x, tag='seq tx-pair %s %s' % (cls, name))
+        # (P2) a check right after an earlier check that succeeded / raised part-way / ran under another chain
+        #      or other flags, on ANOTHER block that shares a transaction with the first and on the same block
+        for ka, a in kinds.items():
+            shared = copy.deepcopy(a.vtx[-1]) if len(a.vtx) > 1 else normal_tx(crng, 'none')
+            nb = valid_block(crng, 2, 'some' if has_witness(shared) else 'nocommit')
+            nb.vtx[1] = shared
+            if has_witness(shared) and nb.ci is None:
+                nb.vtx[0]['vout'].append((0, MAGIC + ZERO32)); nb.ci = len(nb.vtx[0]['vout']) - 1
+                nb.vtx[0]['wit'] = [[rnd_bytes(crng, 32)]]
+            nb.recommit().seal()
+            full = valid_block(crng, 2, 'nocommit')
+            s0 = sum(tx_sigops(t) for t in full.vtx)
+            full.vtx[-1]['vout'].append((0, sig_filler(20000 - s0)))
+            full.recommit().seal()
+            firsts = [cb(0, a), cb(0, a, 'mainnet', 1, 1), cb(0, a, 'regtest', 0, 0), cb(0, a, 'testnet', 0, 1)]
+            for f in firsts:
+                for second in ([cb(1, nb)], [cb(2, full)], ['new:0', cb(0, a)], [cb(0, a)], ['tc:1:1:regtest'],
+                               ['mr:1', 'wr:0', 'gw:2'], [cb(1, nb, 'mainnet', 0, 1), cb(1, nb)]):
+                    i += 1
+                    if i % nshards == shard:
+                        yield mk('c16.seq', 3, spec(a), spec(nb), spec(full), 'flush', f, *second, tag='seq after-%s' % ka)
+        # CheckTransaction after CheckTransaction: a transaction sharing an outpoint with the previous one
+        t2 = normal_tx(crng, 'none', nin=1, nout=1); t2['vin'][0] = t_ok['vin'][0]
+        for c1 in ('Ti=', 'Tm='):
+            for first, second in ((t_dup, t2), (t_ok, t2), (t2, t_ok), (t_dup, t_dup), (t_cb, t2)):
+                for ch1, ch2 in (('mainnet', 'mainnet'), ('regtest', 'mainnet')):
+                    i += 1
+                    if i % nshards == shard:
+                        yield mk('c16.seq', 2, c1 + txfmt.show_tx(first), c1 + txfmt.show_tx(second), 'flush',
+                                 'tc:0:-:' + ch1, 'tc:1:-:' + ch2, 'tc:0:-:' + ch2, tag='seq tx-after-tx')
+        # random histories
+        names = list(kinds)
+        for _ in range(3000 if big else 300):
+            ks = [crng.choice(names) for _ in range(3)]
+            objs = [kinds[k] for k in ks]
+            steps = ['flush']
+            for _ in range(crng.randint(3, 7)):
+                j = crng.randrange(3)
+                b = objs[j]
+                steps.append(crng.choice([
+                    cb(j, b), cb(j, b), cb(j, b, crng.choice(CHAINS), crng.randrange(2), crng.randrange(2)),
+                    'mr:%d' % j, 'wr:%d' % j, 'gw:%d' % j, 'bh:%d' % j, 'ci:%d' % j, 'ctor:%d' % j, 'new:%d' % j,
+                    'tc:%d:%d:%s' % (j, crng.randrange(len(b.vtx)), crng.choice(CHAINS)),
+                    'tid:%d:%d' % (j, crng.randrange(len(b.vtx))), 'so:%d:%d' % (j, crng.randrange(len(b.vtx))),
+                    'ch:%d:%s:%d:%d' % (j, crng.choice(CHAINS), b.now, crng.randrange(2))]))
+            i += 1
+            if i % nshards == shard:
+                yield mk('c16.seq', 3, *[spec(o) for o in objs], *steps, tag='seq history')
+
     def block_cases(self, chain, tag, b, spec=True):
         fpow = b.fpow if chain == 'regtest' else 0
         args = (chain, b.now, fpow, b.fmerkle, b.text())
@@ -764,18 +913,7 @@ class C16(Prop):
         return c.line
 
     def build_block(self, b):
-        """CBlock through its constructor; a declared root the constructor would refuse or replace
-        (wrong / all-zero) is put in place afterwards, as for a block received from the wire"""
-        C = self.C
-        h = b['hdr']
-        vtx = [txfmt.to_tx(t) for t in b['vtx']]
-        try:
-            blk = C.CBlock(h['ver'], h['prev'], h['merkle'], h['time'], h['bits'], h['nonce'], vtx)
-        except C.CheckBlockError:
-            blk = C.CBlock(h['ver'], h['prev'], ZERO32, h['time'], h['bits'], h['nonce'], vtx)
-        if blk.hashMerkleRoot != h['merkle']:
-            object.__setattr__(blk, 'hashMerkleRoot', h['merkle'])
-        return blk
+        return build_block(self.C, b)
 
     def impl(self, c):
         C = self.C
@@ -790,6 +928,8 @@ class C16(Prop):
                     self.bitcoin.SelectParams('mainnet')
                 return 'ok'
             return guarded(f)
+        if op == 'c16.seq':
+            return run_seq(C, self.bitcoin, a)
         if op in ('c16.checktx', 'c16.spec.checktx'):
             t = txfmt.parse_tx(a[2])
             return under(a[0], lambda: C.CheckTransaction(txfmt.to_tx(t, mutable=(a[1] == 'm'))))
